@@ -705,6 +705,9 @@ static unary_factory& unOp(const std::string &s)
     if (s == "index") return CONVERT_TO_INDEX_SET();
     if (s == "distinc") return DIST_INC();
     if (s == "cycle") return CYCLE();
+    if (s == "card") return CARDINALITY();
+    if (s == "maxrange") return MAX_RANGE();
+    if (s == "minrange") return MIN_RANGE();
     throw Bad("unknown unary op " + s);
 }
 
@@ -716,6 +719,15 @@ static void cmd_unary(const std::vector<std::string> &tk)
     dd_edge &r = freshEdge(tk[1], tk[2]);
     apply(uf, a, r);
     showEdge(tk[1]);
+}
+
+// unaryinto X op A : unary operation with the existing edge X as the result operand
+// (X may be detached)
+static void cmd_unaryinto(const std::vector<std::string> &tk)
+{
+    dd_edge &x = edgeOf(tk[1]);
+    apply(unOp(tk[2]), edgeOf(tk[3]), x);
+    emit("unaryinto ok");
 }
 
 static void cmd_card(const std::vector<std::string> &tk)
@@ -1542,6 +1554,7 @@ static void run(const std::vector<std::string> &tk)
     else if (c == "var") cmd_var(tk);
     else if (c == "apply") cmd_apply(tk);
     else if (c == "unary") cmd_unary(tk);
+    else if (c == "unaryinto") cmd_unaryinto(tk);
     else if (c == "card") cmd_card(tk);
     else if (c == "range") cmd_range(tk);
     else if (c == "iter") cmd_iter(tk);
